@@ -10,6 +10,13 @@ class C10(Prop):
     driver = 'drv_C10'
     model = 'C10'
     exhaustive = True
+    level_text = ('Machine-checked Coq theorems (strict total lexicographic order, equality consistency, derived operators, '
+                  'canRead/canWrite specifications, the read-only and read-write gate, Force) about definitions that are regenerated '
+                  'from include/nix/Version.hpp on every run; the hand-written checkHeader/open model is tied by an exhaustive '
+                  'correspondence run (version cube x modes x Force x header defects) against the sanitizer-built library, judged by '
+                  'an extracted oracle proved equal to the gate.')
+    level_note = ('Trusted: Coq kernel; the clang-AST translator; ExtrOcamlBasic extraction and the OCaml/C++ driver glue; HDF5 attribute '
+                  'I/O. C++ int components modelled as Z (comparisons only). No axioms (closed under the global context).')
     technique = 'Coq proof over translator-generated FormatVersion operators + exhaustive correspondence of the open gate'
     nontrivial_rule = ('ops: all ordered pairs of triples over a 6^3 grid (components -1,0,1,2,3,INT_MAX) plus extreme values; '
                        'open: the full cube [-1..3]^3 around the library version plus INT_MIN/INT_MAX components x 3 modes x Force '
